@@ -195,6 +195,13 @@ def family():
     add("S11-shared-delete", lambda h: (h.establish("A", nq=1, gnb=0, sdf=0), h.establish("B", nq=2, gnb=0, sdf=0), h.delete("A")))
     # re-marking: after the Update QER the stored flow QER carries the session label; ending the session must return its cell to the pool it came from
     add("S12-mod-remark-delete", lambda h: (h.establish("A", nq=2), h.modify("A", "upd_qer_remark"), h.delete("A")))
+    # a live session's downlink FAR is sent again towards the SAME gNB (the tunnel peer exists: MODIFY); whatever happens to that
+    # write, A keeps its reference: a second session sharing the peer comes and goes, then so many new peers arrive that the
+    # four-id FIFO pool comes round - a peer id released behind A's back would be handed to the last of them
+    add("S13-resend-far-shared-come-go",
+        lambda h: (h.establish("A", nq=1, gnb=0, sdf=0), h.modify("A", "upd_far", gnb=0), h.establish("B", nq=1, gnb=0, sdf=0),
+                   h.delete("B"), h.establish("C", nq=1, gnb=1, sdf=1), h.establish("D", nq=1, gnb=2, sdf=2)),
+        default_cfg({"PreQosPipe.app_meter": 14, "PreQosPipe.pre_qos_counter": 16, "PostQosPipe.post_qos_counter": 16}, 4, 6))
     add("M3-remark-tiny-session-meter", lambda h: (h.establish("A", nq=2), h.modify("A", "upd_qer_remark"), h.delete("A"), h.establish("B", nq=2, gnb=1, sdf=1)),
         default_cfg({"PreQosPipe.session_meter": 3}))
     # migration probes: one pool kind has just two cells, so a cell released into the wrong pool is either out of
